@@ -45,179 +45,15 @@ pub fn st_oob_read() {
     assert!(x == x);
 }
 
-// ---- debugging variants (temporary) ----
-use crate::env::*;
-use epserde::deser::{Deserialize, Error as DE};
-use epserde::ser::Serialize;
-#[cfg_attr(kani, kani::proof)] #[cfg_attr(kani, kani::unwind(50))]
-#[cfg_attr(kani, kani::stub(core::str::from_utf8, crate::env::from_utf8_stub))]
-pub fn dbg_v2() {
-    let x: u32 = any();
-    let mut s = Sink::<64>::new();
-    let _n = x.serialize(&mut s).unwrap();
-    let mut al = Al::<64>::zero();
-    al.0 = s.buf;
-    let mut rd = Exact::new(&al.0[..0]);
-    let r = <u32>::deserialize_full(&mut rd);
-    let ok = r.is_ok();
-    core::mem::forget(r);
-    assert!(!ok);
+/// A harness whose `cover!` witnesses are satisfied *and* whose assertion fails:
+/// Kani's concrete playback prints one unit test per satisfied cover and one per
+/// failed check; the driver must replay the latter (an earlier version took the
+/// first test, i.e. a cover witness, and reported "did not reproduce").
+#[cfg_attr(kani, kani::proof)]
+pub fn st_cover_then_fail() {
+    let a: u8 = any();
+    let b: u8 = any();
+    crate::cover!(a == 7, "witness one");
+    crate::cover!(a == 9 && b == 1, "witness two");
+    assert!(!(a == 200 && b == 100), "SELFTEST: violated for a=200, b=100 only");
 }
-#[cfg_attr(kani, kani::proof)] #[cfg_attr(kani, kani::unwind(50))]
-#[cfg_attr(kani, kani::stub(core::str::from_utf8, crate::env::from_utf8_stub))]
-pub fn dbg_v3() {
-    let x: u32 = any();
-    let mut s = Sink::<64>::new();
-    let _n = x.serialize(&mut s).unwrap();
-    let mut al = Al::<64>::zero();
-    al.0 = s.buf;
-    let mut rd = Exact::new(&al.0[..20]);
-    let r = <u32>::deserialize_full(&mut rd);
-    let ok = r.is_ok();
-    core::mem::forget(r);
-    assert!(!ok);
-}
-#[cfg_attr(kani, kani::proof)] #[cfg_attr(kani, kani::unwind(50))]
-#[cfg_attr(kani, kani::stub(core::str::from_utf8, crate::env::from_utf8_stub))]
-pub fn dbg_v4() {
-    // no serialization at all: an all-zero 8-byte prefix
-    let al = Al::<64>::zero();
-    let mut rd = Exact::new(&al.0[..4]);
-    let r = <u32>::deserialize_full(&mut rd);
-    let ok = r.is_ok();
-    core::mem::forget(r);
-    assert!(!ok);
-}
-macro_rules! dbgv {
-    ($name:ident, $x:expr, $unwrap:expr, $useal:expr, $cut:expr) => {
-        #[cfg_attr(kani, kani::proof)] #[cfg_attr(kani, kani::unwind(50))]
-        #[cfg_attr(kani, kani::stub(core::str::from_utf8, crate::env::from_utf8_stub))]
-        pub fn $name() {
-            let x: u32 = $x;
-            let mut s = Sink::<64>::new();
-            if $unwrap { let _n = x.serialize(&mut s).unwrap(); } else { match x.serialize(&mut s) { Ok(_) => {}, Err(_) => { assert!(false); } } }
-            let mut al = Al::<64>::zero();
-            al.0 = s.buf;
-            let data: &[u8] = if $useal { &al.0[..$cut] } else { &s.buf[..$cut] };
-            let mut rd = Exact::new(data);
-            let r = <u32>::deserialize_full(&mut rd);
-            let ok = r.is_ok();
-            core::mem::forget(r);
-            assert!(ok == ($cut >= 44));
-        }
-    };
-}
-dbgv!(dbg_v5, any(), false, true, 20);
-dbgv!(dbg_v6, any(), true, false, 20);
-dbgv!(dbg_v7, 0xdeadbeef, true, true, 20);
-dbgv!(dbg_v8, any(), true, true, 44);
-dbgv!(dbg_v9, any(), true, true, 43);
-#[cfg_attr(kani, kani::proof)] #[cfg_attr(kani, kani::unwind(50))]
-#[cfg_attr(kani, kani::stub(core::str::from_utf8, crate::env::from_utf8_stub))]
-pub fn dbg_v10() {
-    let x: u32 = any();
-    let mut s = Sink::<64>::new();
-    match x.serialize(&mut s) { Ok(_) => {}, Err(_) => { assert!(false); } }
-    let z = Al::<64>::zero();
-    let mut rd = Exact::new(&z.0[..20]);
-    let r = <u32>::deserialize_full(&mut rd);
-    let ok = r.is_ok();
-    core::mem::forget(r);
-    assert!(!ok);
-}
-#[cfg_attr(kani, kani::proof)] #[cfg_attr(kani, kani::unwind(50))]
-#[cfg_attr(kani, kani::stub(core::str::from_utf8, crate::env::from_utf8_stub))]
-pub fn dbg_v11() {
-    let z = Al::<64>::zero();
-    let mut rd = Exact::new(&z.0[..20]);
-    let r = <u32>::deserialize_full(&mut rd);
-    let ok = r.is_ok();
-    core::mem::forget(r);
-    assert!(!ok);
-    let x: u32 = any();
-    let mut s = Sink::<64>::new();
-    match x.serialize(&mut s) { Ok(_) => {}, Err(_) => { assert!(false); } }
-}
-#[cfg_attr(kani, kani::proof)] #[cfg_attr(kani, kani::unwind(50))]
-#[cfg_attr(kani, kani::stub(core::str::from_utf8, crate::env::from_utf8_stub))]
-pub fn dbg_v12() {
-    // valid magic etc. from constants, no serializer: fails at the type-hash read
-    let mut z = Al::<64>::zero();
-    z.0[..8].copy_from_slice(b"epserde ");
-    z.0[8] = 1; z.0[10] = 1; z.0[12] = 8;
-    let mut rd = Exact::new(&z.0[..20]);
-    let r = <u32>::deserialize_full(&mut rd);
-    let ok = r.is_ok();
-    core::mem::forget(r);
-    assert!(!ok);
-}
-
-macro_rules! dbgc { ($($name:ident : $cut:literal),*) => {$(
-    #[cfg_attr(kani, kani::proof)] #[cfg_attr(kani, kani::unwind(50))]
-    #[cfg_attr(kani, kani::stub(core::str::from_utf8, crate::env::from_utf8_stub))]
-    pub fn $name() {
-        let mut z = Al::<64>::zero();
-        z.0[..8].copy_from_slice(b"epserde ");
-        z.0[8] = 1; z.0[10] = 1; z.0[12] = 8;
-        let mut rd = Exact::new(&z.0[..$cut]);
-        let r = <u32>::deserialize_full(&mut rd);
-        let ok = r.is_ok();
-        core::mem::forget(r);
-        assert!(!ok);
-    }
-)*}; }
-dbgc!(dbg_c0: 0, dbg_c4: 4, dbg_c8: 8, dbg_c9: 9, dbg_c11: 11, dbg_c12: 12, dbg_c13: 13, dbg_c20: 20, dbg_c21: 21, dbg_c28: 28, dbg_c29: 29, dbg_c36: 36, dbg_c37: 37, dbg_c40: 40);
-#[cfg_attr(kani, kani::proof)] #[cfg_attr(kani, kani::unwind(50))]
-#[cfg_attr(kani, kani::stub(core::str::from_utf8, crate::env::from_utf8_stub))]
-pub fn dbg_io_symk() {
-    let x: u32 = any();
-    let mut s = Sink::<64>::new();
-    let n = match x.serialize(&mut s) { Ok(n) => n, Err(_) => { assert!(false); 0 } };
-    let k: usize = any();
-    assume(k < n);
-    let mut rd: &[u8] = &s.buf[..k];
-    let r = <u32>::deserialize_full(&mut rd);
-    let ok = r.is_ok();
-    core::mem::forget(r);
-    assert!(!ok);
-}
-#[cfg_attr(kani, kani::proof)] #[cfg_attr(kani, kani::unwind(50))]
-#[cfg_attr(kani, kani::stub(core::str::from_utf8, crate::env::from_utf8_stub))]
-pub fn dbg_swp_symk() {
-    let x: u32 = any();
-    let mut s = Sink::<64>::new();
-    let n = match x.serialize(&mut s) { Ok(n) => n, Err(_) => { assert!(false); 0 } };
-    let k: usize = any();
-    assume(k < n);
-    let mut rd = epserde::deser::SliceWithPos::new(&s.buf[..k]);
-    let r = <u32>::deserialize_full(&mut rd);
-    let ok = r.is_ok();
-    core::mem::forget(r);
-    assert!(!ok);
-}
-#[cfg_attr(kani, kani::proof)] #[cfg_attr(kani, kani::unwind(50))]
-#[cfg_attr(kani, kani::stub(core::str::from_utf8, crate::env::from_utf8_stub))]
-pub fn dbg_io_k8() {
-    let x: u32 = any();
-    let mut s = Sink::<64>::new();
-    let _n = match x.serialize(&mut s) { Ok(n) => n, Err(_) => { assert!(false); 0 } };
-    let mut rd: &[u8] = &s.buf[..8];
-    let r = <u32>::deserialize_full(&mut rd);
-    let ok = r.is_ok();
-    core::mem::forget(r);
-    assert!(!ok);
-}
-fn marker_loop(n: usize) -> usize { let mut s = 0; let mut i = 0; while i < n { s += i; i += 1; } s }
-macro_rules! dbgt { ($($name:ident : $cut:literal),*) => {$(
-    #[cfg_attr(kani, kani::proof)] #[cfg_attr(kani, kani::unwind(20))]
-    pub fn $name() {
-        use epserde::deser::DeserializeInner;
-        let z = Al::<64>::zero();
-        let mut rd = Exact::new(&z.0[..$cut]);
-        let mut rp = epserde::deser::ReaderWithPos::new(&mut rd);
-        let r = u64::_deserialize_full_inner(&mut rp);
-        if r.is_ok() { let m = marker_loop(10); assert!(m == 45); }
-        core::mem::forget(r);
-    }
-)*}; }
-dbgt!(dbg_t0: 0, dbg_t4: 4, dbg_t7: 7);
